@@ -165,7 +165,7 @@ Definition check_visible_instance (k : cmd * list nat * trace) : bool :=
   match k with
   | (c, ds, _) =>
       match runX 4000 c renv0 (ds ++ zeros) with
-      | DoneX _ tr _ _ => forallb (fun e => match snd e with Some _ => visible c aenv0 (fst e) | None => true end) tr
+      | DoneX _ tr _ _ => forallb (fun e => match snd e with Some _ => visiblex c aenv0 (fst e) | None => true end) tr
       | _ => false
       end
   end.
@@ -347,13 +347,21 @@ def corpus_trees():
         # binding must NOT reach the read after the statement (seeded C03-2)
         [A(1, 'y'), ('try', [A(2, 'x')], [([], None, [A(3, 'x')])], [A(4, 'x')], [R(10, 'y')], True, True), R(11, 'x')],
         [A(1, 'y'), ('try', [A(2, 'x')], [([], (3, 'e1'), [A(4, 'x')]), ([], None, [A(5, 'x')])], [A(6, 'x')], [R(10, 'y')], True, True), R(11, 'x')],
-        # F59: a comprehension in the value must not see the target being bound (plain, annotated, walrus, with)
+        # early return in a branch (C02 domain; phantom for C03 = K1)
+        [('if', [], [A(1, 'x'), ('return',)], [A(2, 'x')]), R(10, 'x')],
+    ]
+
+
+def corpus_trees_ext():
+    """boundary programs OUTSIDE the stated domain of C02/C03 (a comprehension element reads the name its
+    statement binds, defect F59): evaluated, failures reported as extended-domain failures"""
+    A = lambda d, x, reads=(): ('assign', list(reads), [(d, x)], 'plain')
+    R = lambda r, x: ('expr', [(r, x)])
+    return [
         [A(1, 'x'), ('comp', [], None, [(10, 'x')], [(2, 'x')], 'plain', []), R(11, 'x')],
         [A(1, 'x'), ('comp', [(10, 'x')], [(11, 'x')], [(12, 'x')], [(2, 'x')], 'ann', []), R(13, 'x')],
         [('comp', [], None, [(10, 'y')], [(1, 'y')], 'walrus', []), R(11, 'y')],
         [A(1, 'a'), ('comp', [], None, [(10, 'a')], [(2, 'a')], 'with', [R(11, 'a')]), R(12, 'a')],
-        # early return in a branch (C02 domain; phantom for C03 = K1)
-        [('if', [], [A(1, 'x'), ('return',)], [A(2, 'x')]), R(10, 'x')],
     ]
 
 
